@@ -5,11 +5,11 @@ set -u
 D="$1"
 WT=/tmp/wt-verify-$$
 export CARGO_NET_OFFLINE=true
-git -C /repo worktree add --detach "$WT" HEAD >/dev/null 2>&1 || { echo "worktree failed"; exit 2; }
-cleanup() { git -C /repo worktree remove --force "$WT" >/dev/null 2>&1; }
+git clone -q /repo "$WT" >/dev/null 2>&1 || { echo "clone failed"; exit 2; }
+cleanup() { rm -rf "$WT"; }
 trap cleanup EXIT
 cd "$WT"
-FEAT=$(grep -o '\-\-features [a-z,-]*' "$D/demo.rs" | head -1)
+FEAT=$(grep 'cargo test' "$D/demo.rs" | grep -e '--test demo' | grep -o '\-\-features [a-z,-]*' | head -1)
 git apply "$D/patch.diff" || { echo "RESULT patch-does-not-apply"; exit 1; }
 cargo build --offline >/dev/null 2>&1 || { echo "RESULT build-default-fails"; exit 1; }
 cargo build --offline --features get-info-full,large-blobs,third-party-payment >/dev/null 2>&1 || { echo "RESULT build-allfeatures-fails"; exit 1; }
